@@ -167,7 +167,7 @@ int tcpreadtimeout(int s, unsigned char *buf, int num, int timeout) {
         fds[0].events = POLLIN;
         ndesc = poll(fds, 1, timeout ? timeout * 1000 : -1);
         if (ndesc < 1)
-            return ndesc;
+            return ndesc == 0 && len > 0 ? -1 : ndesc; /* a stall inside a message cannot be resumed */
 
         if (fds[0].revents & (POLLERR | POLLHUP | POLLNVAL)) {
             return -1;
@@ -206,10 +206,10 @@ int radtcpget(int s, int timeout, uint8_t **buf) {
 
     cnt = tcpreadtimeout(s, *buf + 4, len - 4, timeout);
     if (cnt < 1) {
-        debug(DBG_DBG, cnt ? "radtcpget: connection lost" : "radtcpget: timeout");
+        debug(DBG_DBG, cnt ? "radtcpget: connection lost" : "radtcpget: timeout inside message, closing connection");
         free(*buf);
         *buf = NULL;
-        return cnt;
+        return -1; /* the header is consumed: never report a plain timeout here */
     }
     debug(DBG_DBG, "radtcpget: got %d bytes", len);
     return len;
